@@ -1,6 +1,6 @@
 use std::collections::{HashMap, HashSet};
 
-use combine::{Parser, choice, many1, optional};
+use combine::{Parser, attempt, choice, many1, not_followed_by, optional};
 use redis_protocol::resp3;
 use redis_protocol::resp3::types::BytesFrame;
 use sierradb::StreamId;
@@ -150,8 +150,12 @@ enum Selector {
 impl Selector {
     // <stream_id_1> [PARTITION_KEY <pk_1>] <stream_id_2> [PARTITION_KEY <pk_2>]
     fn parser<'a>() -> impl Parser<FrameStream<'a>, Output = Self> + 'a {
+        // `FROM` and `WINDOW` start the clauses that follow the stream list, so they end
+        // the list instead of being read as stream ids.
+        let clause_keyword = choice((keyword("FROM"), keyword("WINDOW"))).map(|_| "keyword");
+
         many1::<HashSet<_>, _, _>((
-            stream_id(),
+            not_followed_by(clause_keyword).with(stream_id()),
             optional(keyword("PARTITION_KEY").with(partition_key())),
         ))
         .map(|stream_ids| {
@@ -180,7 +184,8 @@ pub enum FromVersionsArg {
 fn from_versions<'a>() -> impl Parser<FrameStream<'a>, Output = FromVersionsArg> + 'a {
     let latest = keyword("LATEST").map(|_| FromVersionsArg::Latest);
     let sequence = number_u64().map(FromVersionsArg::AllStreams);
-    let map = (keyword("MAP").with(many1::<HashMap<_, _>, _, _>(stream_id_version())))
+    // `attempt` lets the list end at a following `WINDOW` clause.
+    let map = (keyword("MAP").with(many1::<HashMap<_, _>, _, _>(attempt(stream_id_version()))))
         .map(FromVersionsArg::Streams);
 
     keyword("FROM").with(choice((latest, sequence, map)))
